@@ -89,7 +89,7 @@ func replayHist(line string) []Case {
 
 func init() {
 	register(&Property{ID: "C01", Gen: genC01, Replay: replayHist,
-		Rule: "histories from the RBR grammar (<=6 units x <=4 statements x <=4 tables x <=5 rows x <=40 columns quick, <=300 thorough; all supported column types and metadata; NULL/absent patterns biased to byte-boundary column counts) x {crc} x {v1,v2} x {id 4,6} x {GTID/ignorable events on,off}; bytes by the Lean Spec writers; real parseEvents (L1) and real Stream() through the driver against the simulated master (L2) vs Lean model vs Spec `expected`. Non-trivial: at least one transaction with a change",
+		Rule:  "histories from the RBR grammar (<=6 units x <=4 statements x <=4 tables x <=5 rows x <=40 columns quick, <=300 thorough; all supported column types and metadata; NULL/absent patterns biased to byte-boundary column counts) x {crc} x {v1,v2} x {id 4,6} x {GTID/ignorable events on,off}; bytes by the Lean Spec writers; real parseEvents (L1) and real Stream() through the driver against the simulated master (L2) vs Lean model vs Spec `expected`. Non-trivial: at least one transaction with a change",
 		Extra: func(c *Collector, r *RNG, tier string) { extraStreamC01(c, r, tier) }})
 }
 
